@@ -55,8 +55,30 @@ def judge(cfg, lat):
     return None
 
 
+def w_forms(cfg):
+    """argument forms: the same latitude as Python int, float, numpy float64 / float32 / int64 and negative zero must
+    give the value the reference assigns to that number (a float32 is judged at the double it converts to)."""
+    acc = Acc()
+    f = pm(cfg).common.cprNL
+    vals = []
+    for k in range(-90, 91):
+        vals += [k, float(k), np.float64(k), np.int64(k), np.float32(k), np.float32(k + 0.3) if k < 90 else np.float32(89.7)]
+    vals += [-0.0, np.float64(-0.0), np.float32(87.0), np.float32(86.99), np.float32(87.01), True, np.float64(10.470475), np.float32(10.5)]
+    for v in vals:
+        acc.n += 1
+        r = call(f, v)
+        lat = float(v)
+        if r[0] != "ok" or r[1] not in C.NL_set(lat) or isinstance(r[1], bool) or int(r[1]) != r[1]:
+            acc.bad(("" if cfg == "P" else "[C]") + "cprNL:argument_form:%s" % type(v).__name__,
+                    {"cfg": cfg, "lat": lat, "lat_hex": lat.hex(), "form": type(v).__name__})
+        acc.out.add((type(v).__name__, lat))
+    return acc.res()
+
+
 def w_lats(arg):
     cfg, kind, spec = arg
+    if kind == "forms":
+        return w_forms(cfg)
     acc = Acc()
     if kind == "grid":
         lo, hi = spec
@@ -122,6 +144,7 @@ def run(ctx):
         step = 6000 if cfg == "P" else 3000
         tasks += [(cfg, "grid", (lo, min(lo + step, 180001))) for lo in range(-180000, 180001, step)]
         tasks += [(cfg, "list", c) for c in chunks(n1, 2000)]
+        tasks.append((cfg, "forms", None))
         if ctx.thorough:
             for d, nj in ((6.0, 60), (360 / 59, 59), (1.5, 60), (90 / 59, 59)):
                 # surface sizes: j%60 + north/south (-90) solutions are all inside the 4x finer airborne-like lattice
@@ -136,5 +159,11 @@ def run(ctx):
 
 
 def replay(case):
+    if "form" in case:
+        lat = float.fromhex(case["lat_hex"])
+        mk = {"int": int, "float": float, "bool": bool, "float64": np.float64, "float32": np.float32, "int64": np.int64}[case["form"]]
+        r = call(pm(case["cfg"]).common.cprNL, mk(lat))
+        bad = r[0] != "ok" or r[1] not in C.NL_set(lat) or isinstance(r[1], bool) or int(r[1]) != r[1]
+        return [(("" if case["cfg"] == "P" else "[C]") + "cprNL:argument_form:%s" % case["form"], case)] if bad else []
     s = judge(case["cfg"], float.fromhex(case["lat_hex"]))
     return [(s, case)] if s else []
